@@ -50,7 +50,7 @@ package tree
 //@   requires[C06] imp(matched, position == END(RULEOF(rule), begin) && begin <= position && tokenIndex > tokenIndexStart
 //@                 && live() == APP(RULEOF(rule), begin, absAt(tokenIndexStart))
 //@                 && tree.tree[tokenIndex - 1] == mk(token, RULEOF(rule), begin, position))
-//@   requires splitT(elems(tree.tree), tokenIndexStart, tokenIndex - tokenIndexStart)
+//@   requires[hint] splitT(elems(tree.tree), tokenIndexStart, tokenIndex - tokenIndexStart)
 //@   ensures  RT()
 //@   uses memo, tabs
 //@   modifies MapDom.DT_memoKey!DT_memo, MapVal.DT_memoKey!DT_memo at b where b == memoization
@@ -205,3 +205,28 @@ package tree
 //@   loop 0 invariant forall(j, imp(0 <= j && j < 2, 0 <= positions[j] && positions[j] < len(e.p.buffer)))
 //@   loop 0 invariant frameExcept("Elems.Int", sbase(positions))
 //@   loop 1 invariant idx() >= 0 && len(tokenSlice) == 1 && soff(tokenSlice) == 0 && tokenSlice[0] == e.maxToken
+
+// ---------------------------------------------------------------------------------------------
+// Execute: the ghost log `alog` receives (k, text) when the body of action k starts. ACT / TXTC
+// specify the log and the value of `text` after the first i tokens (definitions by recursion on i,
+// unfolded where exStep marks; actIdx and PEGTEXT come from the grammar).
+
+//@ specfunc ACT(a tokarr, i int, l TLog) TLog
+//@ specfunc TXTC(a tokarr, i int) string
+//@ specfunc exStep(a tokarr, i int) bool
+//@ smt[ACT] (assert (forall ((a (Array Int DT_token)) (l TLog)) (! (= (ACT a 0 l) l) :pattern ((ACT a 0 l)))))
+//@ smt[ACT] (assert (forall ((a (Array Int DT_token))) (! (= (TXTC a 0) str_empty) :pattern ((TXTC a 0)))))
+//@ smt[ACT] (assert (forall ((a (Array Int DT_token)) (i Int)) (! (exStep a i) :pattern ((exStep a i)))))
+//@ smt[ACT] (assert (forall ((a (Array Int DT_token)) (i Int)) (! (=> (>= i 0) (= (TXTC a (+ i 1)) (ite (= (token_pegRule (select a i)) PEGTEXT) (str_of_runes bufc (token_begin (select a i)) (- (token_end (select a i)) (token_begin (select a i)))) (TXTC a i)))) :pattern ((exStep a i)))))
+//@ smt[ACT] (assert (forall ((a (Array Int DT_token)) (i Int) (l TLog)) (! (=> (>= i 0) (= (ACT a (+ i 1) l) (ite (>= (actIdx (token_pegRule (select a i))) 0) (snocL (ACT a i l) (actIdx (token_pegRule (select a i))) (TXTC a i)) (ACT a i l)))) :pattern ((exStep a i) (ACT a i l)))))
+
+//@ func tokens.Tokens
+//@   ensures result == t.tree && t.tree == old(t.tree)
+
+//@ func $T.Execute
+//@   requires p != nil && soff(p.buffer) == 0 && elems(p.buffer) == bufc && len(p.buffer) == n + 1 && soff(p.tokens.tree) == 0
+//@   requires forall(j, imp(0 <= j && j < len(p.tokens.tree), p.tokens.tree[j].begin <= p.tokens.tree[j].end && p.tokens.tree[j].end <= n))
+//@   ensures[C04] alog == ACT(elems(p.tokens.tree), len(p.tokens.tree), old(alog))
+//@   modifies var alog
+//@   loop 0 invariant idx() >= 0 && idx() <= len(p.tokens.tree) && exStep(elems(p.tokens.tree), idx()) && p.tokens == old(p.tokens) && _buffer == p.buffer && p.buffer == old(p.buffer)
+//@   loop 0 invariant alog == ACT(elems(p.tokens.tree), idx(), old(alog)) && text == TXTC(elems(p.tokens.tree), idx())
